@@ -17,8 +17,8 @@ env.import_adaptix()
 
 from hypothesis import strategies as st  # noqa: E402
 
-from adaptix import DebugTrail, ProviderNotFoundError, Retort  # noqa: E402
-from adaptix.load_error import LoadError  # noqa: E402
+from adaptix import DebugTrail, ProviderNotFoundError, Retort, dumper, loader  # noqa: E402
+from adaptix.load_error import LoadError, TypeLoadError  # noqa: E402
 from props.c04_only_loaderror import build_layouts, build_provs, model_names  # noqa: E402
 from props.c04_only_loaderror import PROVS  # noqa: E402
 from vkit import codec, soup, tspec  # noqa: E402
@@ -60,10 +60,74 @@ def st_case_dump_focus(draw):
     return {"dir": "dump", "t": t, "v": val, "bad": bad, "strict": True, "provs": [], "layouts": {}}
 
 
+# ------------------------------------------------------------------ user providers that let a non-LoadError exception escape
+def picky_int_loader(data):
+    if type(data) is not int:
+        raise TypeLoadError(int, data)
+    if data < 0:
+        raise ValueError(f"user loader refuses {data}")   # an UNEXPECTED error: not a LoadError
+    return data
+
+
+def picky_int_dumper(data):
+    if data < 0:
+        raise ValueError(f"user dumper refuses {data}")
+    return data
+
+
+def build_provs_c06(names):
+    out = build_provs([n for n in names if n != "picky_int"])
+    if "picky_int" in names:
+        out = [loader(int, picky_int_loader), dumper(int, picky_int_dumper), *out]
+    return out
+
+
+@st.composite
+def st_case_unexpected(draw):
+    """A model whose int fields are loaded by a user loader that raises ValueError (not a LoadError) for negative numbers, as one
+    case of a Union whose other case accepts any mapping with the same keys; data with an unexpected error in one field and,
+    often, an ordinary load error in another one.  All three modes must abort (the unexpected error is not "this case does not
+    match"), whichever field comes first."""
+    n = draw(st.integers(2, 4))
+    names = draw(st.lists(st.sampled_from(tspec.FIELD_NAMES), min_size=n, max_size=n, unique=True))
+    ftypes = [draw(st.sampled_from([["int"], ["int"], ["str"], ["bool"], ["list", ["int"], "typing"]])) for _ in names]
+    ftypes[draw(st.integers(0, n - 1))] = ["int"]
+    a, b = draw(st.sampled_from([("M0", "M1"), ("M1", "M0")]))   # union cases are ordered by name: both orders
+    kinds = ["dataclass", "attrs", "namedtuple", "typeddict"]
+    picky = ["model", {"name": a, "kind": draw(st.sampled_from(kinds)),
+                       "fields": [{"n": nm, "t": ft, "d": None} for nm, ft in zip(names, ftypes)]}]
+    loose = ["model", {"name": b, "kind": draw(st.sampled_from(kinds)), "fields": [{"n": nm, "t": ["any"], "d": None} for nm in names]}]
+    shape = draw(st.sampled_from(["union", "union", "alone", "list_of_union", "dict_of_union"]))
+    t = picky if shape == "alone" else ["union", [picky, loose], "typing"]
+    good = {"int": 3, "str": "s", "bool": True, "list": [1, 2]}
+    wrong = {"int": "x", "str": 5, "bool": "no", "list": 7}
+    items = []
+    faults = [draw(st.sampled_from(["ok", "ok", "unexpected", "unexpected", "load_error"])) for _ in names]
+    if "unexpected" not in faults:
+        faults[draw(st.integers(0, n - 1))] = "unexpected"
+    for nm, ft, fault in zip(names, ftypes, faults):
+        if fault == "unexpected":
+            v = -5 if ft[0] == "int" else [1, -2] if ft[0] == "list" else wrong[ft[0]]
+        elif fault == "load_error":
+            v = wrong[ft[0]]
+        else:
+            v = good[ft[0]]
+        items.append([tspec.model_key(nm), v])
+    datum = {"$": "d", "v": items}
+    if shape == "list_of_union":
+        t, datum = ["list", t, "typing"], [datum]
+    elif shape == "dict_of_union":
+        t, datum = ["dict", ["str"], t, "typing"], {"$": "d", "v": [["k", datum]]}
+    return {"dir": "load", "t": t, "datum": datum, "ops": ["unexpected", shape, *faults], "strict": draw(st.booleans()),
+            "provs": ["picky_int"], "layouts": {}}
+
+
 @st.composite
 def st_case(draw):
     if draw(st.integers(0, 6)) == 0:
         return draw(st_case_dump_focus())
+    if draw(st.integers(0, 7)) == 0:
+        return draw(st_case_unexpected())
     if draw(st.integers(0, 4)) == 0:
         # the load cases of C04 (model-rooted types with list / nested / forbidding / collecting layouts whose root container is
         # mutated structurally, sets with unhashable elements ...) through this property's differential oracle
@@ -77,7 +141,8 @@ def st_case(draw):
         val = draw(tspec.st_value(t))
         nbad = draw(st.integers(0, 2))
         bad = [[draw(st.integers(0, 50)), draw(st.one_of(st.sampled_from(soup._LEAVES), st.just("__delete__")))] for _ in range(nbad)]
-        return {"dir": "dump", "t": t, "v": val, "bad": bad, "strict": True, "provs": [], "layouts": {}}
+        return {"dir": "dump", "t": t, "v": val, "bad": bad, "strict": True,
+                "provs": ["picky_int"] if draw(st.integers(0, 3)) == 0 else [], "layouts": {}}
     near = draw(st.integers(0, 9)) < 6
     if near:
         t = draw(GEN_NEAR.strategy())
@@ -163,7 +228,7 @@ def same_value(a, b) -> bool:
 def check_case(ctx: runner.Ctx, case):  # noqa: C901, PLR0912
     t = case["t"]
     hint, e = tspec.build_type(t)
-    recipe = build_provs(case.get("provs", [])) + build_layouts(case.get("layouts", {}), e)
+    recipe = build_provs_c06(case.get("provs", [])) + build_layouts(case.get("layouts", {}), e)
     outs = []
     for mode in DEBUG:
         retort = Retort(recipe=recipe, strict_coercion=case["strict"], debug_trail=mode)
@@ -203,6 +268,14 @@ def check_case(ctx: runner.Ctx, case):  # noqa: C901, PLR0912
     head = f"dir={case['dir']} type={tspec.text(t)} strict={case['strict']} provs={case.get('provs')} " \
            f"layouts={case.get('layouts')} input={case.get('datum', case.get('v'))!r}"
 
+    if kinds == ["ok", "ok", "err"] and "picky_int" in case.get("provs", []) and not isinstance(outs[2][1], LoadError) and \
+            any(isinstance(x, ValueError) and "user loader refuses" in str(x) for x in all_nodes(outs[2][1])):
+        # known finding (see known_findings.json): ALL goes on after the first LoadError of a model / container and so reaches a
+        # user loader that raises a non-LoadError; the plain ExceptionGroup it then raises is not a "case does not match" for the
+        # enclosing Union, while DISABLE / FIRST stopped at the LoadError and went on to the next case
+        ctx.violation("all_mode_reaches_unexpected_error_behind_load_error", ("union_falls_through_only_in_disable_and_first",), case,
+                      f"{head}: {[(n, k, describe(o[1]) if k == 'err' else repr(o[1])[:200]) for n, k, o in zip(NAMES, kinds, outs)]}")
+        return
     if len(set(kinds)) != 1:
         who = ",".join(f"{n}:{k}" for n, k in zip(NAMES, kinds))
         first_err = next(o[1] for o in outs if o[0] == "err")
